@@ -162,7 +162,7 @@ func judgeSeq(r *mon.Rec, t *testing.T, sc seqT) {
 				return
 			}
 			d := dests[i%len(dests)]
-			if ua, ok := w.Dest.(*net.UDPAddr); !ok || !ua.IP.Equal(d.IP) || ua.Port != d.Port {
+			if ua, ok := w.Dest.(*net.UDPAddr); !ok || !ua.IP.Equal(d.IP) || ua.Port != d.Port || ua.Zone != d.Zone {
 				bad("destination", "transmission #%d went to %v, want %v", k, w.Dest, d)
 				return
 			}
